@@ -6,6 +6,8 @@
 //   - go f(x)              -> { f', x' := f, x; simrt.Go(func(){ f'(x') }) }   (operands evaluated by the spawner, as the language requires)
 //   - time.Sleep           -> simrt.Sleep
 //   - goutil.AtomicMap / goutil.RwMap -> simrt.NewMap
+//   - coarsetime.CeilingTimeNow / FloorTimeNow -> simrt.CeilingTimeNow / FloorTimeNow (the coarse clock is a
+//     real-time ticker started in init, outside any bubble; session-age read deadlines must read the fake clock)
 //   - utils.(*ByteBuffer).ChangeLen gets a leading simrt.AllocProbe(newLen)
 //
 // No expression of teleport is otherwise touched, so a modified tree still instruments.
@@ -58,6 +60,7 @@ type rewriter struct {
 	changed  bool
 	timeName string
 	goutil   string
+	coarse   string
 	tmp      int
 }
 
@@ -87,6 +90,7 @@ func rewrite(path string) (bool, error) {
 	rw := &rewriter{fset: fset, file: f}
 	rw.timeName = importName(f, "time")
 	rw.goutil = importName(f, "github.com/henrylee2cn/goutil")
+	rw.coarse = importName(f, "github.com/henrylee2cn/goutil/coarsetime")
 
 	// 1. imports
 	for _, im := range f.Imports {
@@ -126,6 +130,10 @@ func rewrite(path string) (bool, error) {
 					id.Name = "simrt"
 					rw.needSim, rw.changed = true, true
 				}
+				if rw.coarse != "" && id.Name == rw.coarse && (x.Sel.Name == "CeilingTimeNow" || x.Sel.Name == "FloorTimeNow") {
+					id.Name = "simrt"
+					rw.needSim, rw.changed = true, true
+				}
 				if rw.goutil != "" && id.Name == rw.goutil && (x.Sel.Name == "AtomicMap" || x.Sel.Name == "RwMap") {
 					id.Name = "simrt"
 					x.Sel.Name = "NewMap"
@@ -152,7 +160,7 @@ func rewrite(path string) (bool, error) {
 	if rw.needSim {
 		addImport(f, "simrt")
 	}
-	for _, nm := range []struct{ name, path string }{{rw.timeName, "time"}, {rw.goutil, "github.com/henrylee2cn/goutil"}} {
+	for _, nm := range []struct{ name, path string }{{rw.timeName, "time"}, {rw.goutil, "github.com/henrylee2cn/goutil"}, {rw.coarse, "github.com/henrylee2cn/goutil/coarsetime"}} {
 		if nm.name != "" && !usesPkg(f, nm.name) {
 			blankImport(f, nm.path)
 		}
